@@ -230,3 +230,104 @@ pub open spec fn enum_string_body(r: Expr, d: EnumDef) -> bool {
     r matches Expr::EMatch { expr, arms, .. } && is_var(*expr, "self"@) && arms@.len() == d.variants@.len()
     && forall|i: int| 0 <= i < arms@.len() ==> string_variant_arm(#[trigger] arms@[i], d.name, d.variants@[i].0, d.variants@[i].1@)
 }
+// ---- expand: which item gets which impl, and where ----
+impl VClone for Vec<AstIdent> { #[verifier::external_body] fn vclone(&self) -> (r: Self) { unimplemented!() } }
+// diagnostics::Diagnostics: only the number of diagnostics pushed matters here; every diagnostic the derive builds has Severity::Error
+// (generic_not_supported / generic_not_supported_json), so has_errors() is `something was pushed`
+#[verifier::external_body] pub struct Diagnostics { _p: u64 }
+impl Diagnostics {
+    pub uninterp spec fn count(&self) -> nat;
+    #[verifier::external_body] pub fn new() -> (r: Self) ensures r.count() == 0 { unimplemented!() }
+    #[verifier::external_body] pub fn push(&mut self, d: Diagnostic) ensures final(self).count() == old(self).count() + 1 { unimplemented!() }
+    #[verifier::external_body] pub fn has_errors(&self) -> (r: bool) ensures r == (self.count() > 0) { unimplemented!() }
+}
+pub open spec fn item_attrs(it: Item) -> Option<Seq<Attribute>> {
+    match it { Item::StructDef(d) => Some(d.attrs@), Item::EnumDef(d) => Some(d.attrs@), _ => None }
+}
+pub open spec fn item_generic(it: Item) -> bool {
+    match it { Item::StructDef(d) => d.generics@.len() > 0, Item::EnumDef(d) => d.generics@.len() > 0, _ => false }
+}
+// the item asks for the trait (only struct and enum definitions can)
+pub open spec fn wants(it: Item, t: Seq<char>) -> bool { item_attrs(it) is Some && derives(item_attrs(it)->0, t) }
+// C18: a type the derive cannot handle — a generic struct / enum asking for a derive
+pub open spec fn unsupported(it: Item) -> bool { item_generic(it) && (wants(it, "ToString"@) || wants(it, "ToJson"@)) }
+pub open spec fn is_tostring_impl(x: Item, it: Item) -> bool {
+    x matches Item::ImplBlock(b) && match it {
+        Item::StructDef(d) => derived_impl(b, d.name.0@, "to_string"@) && struct_string_body(b.methods@[0].body, d),
+        Item::EnumDef(d) => derived_impl(b, d.name.0@, "to_string"@) && enum_string_body(b.methods@[0].body, d),
+        _ => false,
+    }
+}
+pub open spec fn is_tojson_impl(x: Item, it: Item) -> bool {
+    x matches Item::ImplBlock(b) && match it {
+        Item::StructDef(d) => derived_impl(b, d.name.0@, "to_json"@) && struct_json_body(b.methods@[0].body, d),
+        Item::EnumDef(d) => derived_impl(b, d.name.0@, "to_json"@) && enum_json_body(b.methods@[0].body, d),
+        _ => false,
+    }
+}
+pub open spec fn b2n(b: bool) -> int { if b { 1 } else { 0 } }
+// the number of output items the first k input items give: each item itself, followed by its derived impls
+pub open spec fn offset(items: Seq<Item>, k: int) -> int
+    decreases k,
+{
+    if k <= 0 { 0 } else { offset(items, k - 1) + 1 + b2n(wants(items[k - 1], "ToString"@)) + b2n(wants(items[k - 1], "ToJson"@)) }
+}
+// input item i owns the block of 1 + (number of derives it asks for) output items that starts at offset(i): the block holds the item itself, its
+// to_string impl (if asked for) and its to_json impl (if asked for) — in whatever order (the order of top-level items has no meaning in goml)
+pub open spec fn in_block(items: Seq<Item>, i: int, p: int) -> bool {
+    offset(items, i) <= p < offset(items, i + 1)
+}
+pub open spec fn placed(items: Seq<Item>, out: Seq<Item>, i: int) -> bool {
+    (exists|p: int| #[trigger] in_block(items, i, p) && out[p] == items[i])
+    && (wants(items[i], "ToString"@) ==> exists|p: int| #[trigger] in_block(items, i, p) && is_tostring_impl(out[p], items[i]))
+    && (wants(items[i], "ToJson"@) ==> exists|p: int| #[trigger] in_block(items, i, p) && is_tojson_impl(out[p], items[i]))
+}
+pub open spec fn expanded(items: Seq<Item>, out: Seq<Item>) -> bool {
+    out.len() == offset(items, items.len() as int) && forall|i: int| 0 <= i < items.len() ==> #[trigger] placed(items, out, i)
+}
+// what the match of `expand` leaves in `derived_impls` when no diagnostic was pushed
+pub open spec fn impls_ok(di: Seq<ImplBlock>, it: Item) -> bool {
+    let ts = wants(it, "ToString"@);
+    let tj = wants(it, "ToJson"@);
+    di.len() == b2n(ts) + b2n(tj)
+    && (ts ==> is_tostring_impl(Item::ImplBlock(di[0]), it))
+    && (tj ==> is_tojson_impl(Item::ImplBlock(di[b2n(ts)]), it))
+}
+pub proof fn lemma_offset_mono(items: Seq<Item>, i: int, k: int)
+    requires 0 <= i <= k,
+    ensures 0 <= offset(items, i) <= offset(items, k), i <= offset(items, i),
+    decreases k,
+{
+    if i < k { lemma_offset_mono(items, i, k - 1); } else if k > 0 { lemma_offset_mono(items, i - 1, k - 1); }
+}
+// an item placed in a prefix of the output stays placed when the output grows
+pub proof fn lemma_placed_kept(items: Seq<Item>, a: Seq<Item>, b: Seq<Item>, i: int)
+    requires 0 <= i, offset(items, i + 1) <= a.len() <= b.len(), forall|q: int| 0 <= q < a.len() ==> #[trigger] b[q] == a[q], placed(items, a, i),
+    ensures placed(items, b, i),
+{
+    lemma_offset_mono(items, i, i);
+    let p0 = choose|p: int| #[trigger] in_block(items, i, p) && a[p] == items[i];
+    assert(in_block(items, i, p0) && b[p0] == items[i]);
+    if wants(items[i], "ToString"@) { let p = choose|p: int| #[trigger] in_block(items, i, p) && is_tostring_impl(a[p], items[i]); assert(in_block(items, i, p) && b[p] == a[p]); }
+    if wants(items[i], "ToJson"@) { let p = choose|p: int| #[trigger] in_block(items, i, p) && is_tojson_impl(a[p], items[i]); assert(in_block(items, i, p) && b[p] == a[p]); }
+}
+// one round of expand's loop: the item and its impls are appended behind what was there
+pub proof fn lemma_expand_step(items: Seq<Item>, k: int, a: Seq<Item>, b: Seq<Item>, di: Seq<ImplBlock>)
+    requires 0 <= k < items.len(), a.len() == offset(items, k), b.len() == a.len() + 1 + di.len(),
+             forall|q: int| 0 <= q < a.len() ==> #[trigger] b[q] == a[q], b[a.len() as int] == items[k],
+             forall|q: int| 0 <= q < di.len() ==> #[trigger] b[a.len() + 1 + q] == Item::ImplBlock(di[q]),
+             impls_ok(di, items[k]), forall|i: int| 0 <= i < k ==> #[trigger] placed(items, a, i),
+    ensures b.len() == offset(items, k + 1), forall|i: int| 0 <= i < k + 1 ==> #[trigger] placed(items, b, i),
+{
+    let it = items[k];
+    let ts = wants(it, "ToString"@);
+    let tj = wants(it, "ToJson"@);
+    lemma_offset_mono(items, k, k);
+    assert(offset(items, k + 1) == offset(items, k) + 1 + b2n(ts) + b2n(tj));
+    assert forall|i: int| 0 <= i < k implies placed(items, b, i) by { lemma_offset_mono(items, i + 1, k); lemma_placed_kept(items, a, b, i); }
+    let o = offset(items, k);
+    assert(in_block(items, k, o) && b[o] == it);
+    if ts { assert(in_block(items, k, o + 1) && b[o + 1 + 0] == Item::ImplBlock(di[0])); }
+    if tj { assert(in_block(items, k, o + 1 + b2n(ts)) && b[o + 1 + b2n(ts)] == Item::ImplBlock(di[b2n(ts)])); }
+    assert(placed(items, b, k));
+}
